@@ -308,7 +308,7 @@ class CFG(object):
       changed = False; it += 1
       for n in order:
         if n is start or n in avoid: continue
-        ins = [(lo[p], hi[p]) for p, l in n.pred if p in lo and (exc or l != 'exc')]
+        ins = [(lo[p], hi[p]) for p, l in n.pred if p in lo and (exc or l != 'exc') and not (p is stop and p is not start)]
         if not ins: continue
         wl, wh = w(n)
         l = min(a for a, b in ins) + wl
